@@ -24,6 +24,24 @@ def specExpect (deep : Bool) (kw : List (Name × Obj)) (f : FieldR) : Expect :=
 def specKwValid (c : Cls) (kw : List (Name × Obj)) : Bool :=
   kw.all (fun kv => (initNames (fieldsOf c)).contains kv.1)
 
+/-- can the receiver be deep-copied at all?  Not if an init field holds — at the top or anywhere inside its value — an object that
+    `copy.deepcopy` cannot duplicate (a lock, a generator, an object whose `__deepcopy__` raises).  Then no instance that "shares no mutable
+    field object with the original" can be produced for that field; the property demands nothing of a call that returns no instance, and
+    **everything of every instance that is returned** (`CopyMeets`): a `deep_copy_with` that hands back an instance sharing such a value — and
+    the ordinary lists / dicts next to the uncopyable object inside it — violates C11 -/
+def specDeepCopyable (self : Inst) : Bool :=
+  (fieldsOf self.cls).all (fun f => !f.init || (match self.fields.lookup f.name with | some v => v.copyable | none => true))
+
+/-- **region `deepCopySharesInitFalseDefault`.**  The property text says of `deep_copy_with`: "shares no mutable field object".  For an
+    `init=False` field that is read literally: the copy's value must not share a mutable node with the original's.  `specExpect` demands less
+    (`equalOnly`), because the generated `__init__` — not `deep_copy_with` — decides what such a field holds: a `default_factory` builds a new
+    object per instance, but a plain `default=<object>` is ONE object that `dataclasses` hands to every instance (like a class attribute).
+    The fields of the region: not an init field, plain default, and that default object holds (or is) something mutable. -/
+def inSharedDefaultRegion (f : FieldR) : Bool :=
+  !f.init && (match f.dflt with | .value o => !o.mutIds.isEmpty | _ => false)
+
+def specSharedDefaultFields (c : Cls) : List Name := ((fieldsOf c).filter inSharedDefaultRegion).map (·.name)
+
 /-- the relation between original, arguments and copy for one field -/
 def FieldMeets (deep : Bool) (self : Inst) (kw : List (Name × Obj)) (res : Inst) (f : FieldR) : Prop :=
   match specExpect deep kw f with
@@ -56,5 +74,12 @@ def declaredOrder (c : Cls) : Bool :=
     `none`: no claim (order was not requested, or the classes differ) -/
 def specLt (a b : Inst) : Option (Option Bool) :=
   if declaredOrder a.cls && headCid a.cls == headCid b.cls then some (lexLt (specTuple a) (specTuple b)) else none
+
+/-- `<=`: the field tuple is smaller or equal (`>` and `>=` are `<` / `<=` with the sides exchanged) -/
+def specLe (a b : Inst) : Option (Option Bool) :=
+  (specLt a b).map fun r => match r with
+    | some true => some true
+    | some false => some (veqL (specTuple a) (specTuple b))
+    | none => none
 
 end PedVerif.Frozen
